@@ -469,6 +469,49 @@ def c07(v, tier):
             else:
                 v.note_inconclusive(f"{cfg}: no OACK ({k})")
             s.close()
+            # ERROR in the middle of a transfer: a download must fall silent at once, an upload must end (partial file
+            # removed promptly, long before the 6 x timeout give-up)
+            evals += 1
+            s = N._sock(timeout=1.0)
+            tr = N.Transfer()
+            s.sendto(N.enc_req(N.RRQ, "f.bin", options=[("timeout", 1)]), srv.addr)
+            k, f, peer = N.recv(s, tr)
+            if k == "OACK":
+                s.sendto(N.enc_ack(0), peer)
+                k, f, src = N.recv(s, tr)
+            if k == "DATA":
+                s.sendto(N.enc_ack(f["blk"]), peer)
+                N.recv(s, tr)                       # DATA 2
+                s.sendto(N.enc_error(0, b"client aborts mid-transfer"), peer)
+                more = quiet_after(s, 2.6)
+                if more:
+                    v.violation("C07/net/data-after-error-mid-transfer", f"{cfg}: {len(more)} datagram(s) ({N.dec(more[0][1])[0]}) after the client's ERROR in the middle of a download", {"engine": "net", "config": cfg})
+            else:
+                v.note_inconclusive(f"{cfg}: mid-transfer ERROR scenario got {k}")
+            s.close()
+            evals += 1
+            s = N._sock(timeout=1.0)
+            tr = N.Transfer()
+            up = N.keyed_content("c07up", 512 * 4)
+            s.sendto(N.enc_req(N.WRQ, "abort_me.bin", options=[("timeout", 1)]), srv.addr)
+            k, f, peer = N.recv(s, tr)
+            if k == "OACK":
+                s.sendto(N.enc_data(1, up[:512]), peer)
+                N.recv(s, tr)
+                s.sendto(N.enc_error(3, b"disk full on my side"), peer)
+                gone_after = None
+                t0 = time.time()
+                while time.time() - t0 < 3.0:
+                    if not os.path.exists(os.path.join(sb["srv"], "abort_me.bin")):
+                        gone_after = time.time() - t0
+                        break
+                    time.sleep(0.05)
+                more = quiet_after(s, 0.3)
+                if gone_after is None:
+                    v.violation("C07/net/upload-not-ended-on-error", f"{cfg}: 3 s after the client's ERROR the upload worker had still not ended (partial file still there; give-up by timeout would take 6 s)", {"engine": "net", "config": cfg})
+                if more:
+                    v.violation("C07/net/ack-after-error-mid-upload", f"{cfg}: {len(more)} datagram(s) after the client's ERROR in the middle of an upload", {"engine": "net", "config": cfg})
+            s.close()
             # partial / per-block ACKs around the end of file: no block beyond the final one, silence after the end
             for fname, nblocks in (("f.bin", 6), ("exact.bin", 5)):
                 for w, every in ((4, 1), (4, 3), (3, 2), (8, 5)):
